@@ -1,5 +1,6 @@
 (* C08 — expressions are evaluated exactly once; Debug runs only on failure. *)
 From ASModel Require Import Base Tokens Report Ast IR Expand SetMatch Values Nodes Sem Spec.
+From ASProofs Require OrderP.
 From ASProofs Require Import PatInd StmtInd SemP TraceP MethodsP Examples CorollariesP.
 Local Open Scope string_scope.
 Local Open Scope list_scope.
@@ -107,6 +108,48 @@ Theorem c08_chain_expression_has_the_written_methods : forall o base,
   MethodsP.vmethods (apply_ops base o) = MethodsP.vmethods base + MethodsP.fop_methods o.
 Proof. exact MethodsP.vmethods_apply_ops. Qed.
 Print Assumptions c08_chain_expression_has_the_written_methods.
+
+(* ---- the ORDER of evaluation (Proofs/OrderP.v).  A count cannot see a reordering; with a stateful receiver the order decides which
+   value each pattern tests.  mlist tr = the names of the method calls of a trace in the order they happened. *)
+
+(* a value expression calls its written methods innermost first, each once *)
+Theorem c08_value_expression_calls_its_methods_in_written_order : forall en e v t,
+  eval en e = Some (v, t) -> OrderP.mlist t = OrderP.vmeths e.
+Proof. exact OrderP.eval_mlist. Qed.
+Print Assumptions c08_value_expression_calls_its_methods_in_written_order.
+
+(* on a passing run the methods are called statement by statement, in statement order *)
+Theorem c08_methods_called_in_statement_order : forall s,
+  MethodsP.set_free s = true -> forall en tr, exec s en = Some ([], tr) -> OrderP.mlist tr = OrderP.msites s.
+Proof. exact OrderP.exec_methods_in_statement_order. Qed.
+Print Assumptions c08_methods_called_in_statement_order.
+
+(* a named struct pattern evaluates the asserted expression, then its fields one after the other in WRITTEN order, whichever root
+   fields their chains start from (no grouping by root field, no hoisting) *)
+Theorem c08_struct_fields_evaluated_in_written_order : forall j id path rest fields e en tr,
+  let s := expand j (PStruct id (Some path) rest fields) e in
+  MethodsP.set_free s = true -> exec s en = Some ([], tr) ->
+  OrderP.mlist tr = OrderP.vmeths e ++ flat_map (fun fp => OrderP.msites (OrderP.field_stmt j fp)) fields.
+Proof. exact OrderP.struct_fields_evaluated_in_written_order. Qed.
+Print Assumptions c08_struct_fields_evaluated_in_written_order.
+
+(* the value expression of a chain has the chain's methods in written order *)
+Theorem c08_chain_expression_has_the_written_methods_in_order : forall o base,
+  OrderP.vmeths (apply_ops base o) = OrderP.vmeths base ++ OrderP.fop_meths o.
+Proof. exact OrderP.vmeths_apply_ops. Qed.
+Print Assumptions c08_chain_expression_has_the_written_methods_in_order.
+
+(* non-vacuity: `S { a.len(): 2, b.bump(): 5, a.clone().len(): > 1, .. }` passes and calls len, bump, clone, len - in that order
+   (the two chains on `a` are NOT brought together) *)
+Example c08_example_interleaved_fields :
+  let ch f ms := OChained SCall (ONamed f SCall SCall :: map (fun m => OMethod m SCall SCall []) ms) in
+  let s := expand true (PStruct 0 (Some (pth "S")) true
+             [(ch "a" ["len"], PSimple 1 (ulit "2")); (ch "b" ["bump"], PSimple 2 (ulit "5")); (ch "a" ["clone"; "len"], PCmp 3 OpGt SCall (ulit "1"))])
+             (VRoot []) in
+  MethodsP.set_free s = true /\
+  option_map (fun rt => (fst rt, OrderP.mlist (snd rt))) (exec s (env0 (VStructV "S" [("a", VStr "xy"); ("b", VInt 5)]) []))
+    = Some ([], ["len"; "bump"; "clone"; "len"]).
+Proof. vm_compute. split; reflexivity. Qed.
 
 (* recorded finding C08-accept-everything-patterns-evaluate-nothing, as the model has it: a chain in front of a pattern that asserts
    nothing is not evaluated (0 calls of the written method), and `_ { .. }` / `#{ .. }` at the root do not evaluate the root *)
